@@ -47,7 +47,7 @@ def role_of(chain):
 class C02(C.PipelineCheck):
     id = 'C02'
     title = 'Generated modules are closed: every name resolves, none is declared twice'
-    required_covers = ('resolved:types.ts', 'resolved:commands.ts', 'resolved:events.ts', 'index-checked', 'decl:struct', 'decl:enum', 'mapped')
+    required_covers = ('resolved:types.ts', 'resolved:commands.ts', 'resolved:events.ts', 'index-checked', 'decl:struct', 'decl:enum', 'mapped', 'dup-event-types')
 
     def bounds(self, tier):
         q = tier != 'thorough'
@@ -77,6 +77,7 @@ class C02(C.PipelineCheck):
             yield ('mapped/%s' % site, dict(kind='mapped', site=site, chains=[()] + [(a,) for a in QUICK_CTX]))
         yield ('shared', dict(kind='shared'))
         yield ('dup-event', dict(kind='dup-event'))
+        yield ('dup-event-types', dict(kind='dup-event-types'))
         yield ('minimal', dict(kind='minimal'))
 
     def mutant_scenarios(self, tier, name):
@@ -204,6 +205,20 @@ class C02(C.PipelineCheck):
                 files['src/main.rs'] = (C.HEADER + '#[derive(Serialize, Deserialize, Clone)]\npub struct Note { pub t: String }\n' + CMD +
                                         'a(app: tauri::AppHandle, n: Note) { app.emit("note", n.clone()).unwrap(); if true { app.emit("note", n).unwrap(); } }\n' + CMD +
                                         'b(window: tauri::Window) { window.emit("note", Note { t: String::new() }).unwrap(); window.emit("x-y", 1).unwrap(); window.emit("x_y", 2).unwrap(); }\n')
+            elif kind == 'dup-event-types':
+                # one event name emitted with different payload types (a struct that only the event reaches, a helper call, another
+                # struct), in either order and in one or two files: whatever the listener names must be declared
+                first = e.choose(3)
+                sites = ['app.emit("job", Progress { stage: Stage::A }).unwrap();', 'app.emit("job", load_progress(1)).unwrap();',
+                         'app.emit("job", Failure { why: String::new() }).unwrap();']
+                order = sites[first:] + sites[:first]
+                decls = ('#[derive(Serialize, Deserialize, Clone)]\npub struct Progress { pub stage: Stage }\n#[derive(Serialize, Deserialize, Clone)]\npub enum Stage { A, B }\n'
+                         '#[derive(Serialize, Deserialize, Clone)]\npub struct Failure { pub why: String }\n')
+                two_files = e.choose(2) == 1
+                files['src/main.rs'] = C.HEADER + decls + CMD + 'a(app: tauri::AppHandle) { %s }\n' % order[0] + ('' if two_files else CMD + 'b(app: tauri::AppHandle) { %s %s }\n' % (order[1], order[2]))
+                if two_files:
+                    files['src/zeta.rs'] = CMD + 'b(app: tauri::AppHandle) { %s %s }\n' % (order[1], order[2])
+                e.cover('dup-event-types')
             else:
                 files['src/main.rs'] = C.HEADER + CMD + 'only() {}\n'
             proj = PL.Project(files, holes, cfg)
